@@ -100,12 +100,19 @@ def program(draw, cfg=DEFAULT_CFG, cache_rel='cache.gz'):
         outs = prefix_free([p for p in univ], masked | {cache_rel})[:1]
     opath = st.sampled_from(outs)
     funcs = {}
+    counter = [0]
+    unused = list(outs)
 
     def call(j, top=False):
         catch = chance(draw, cfg['root_catch_p'] if top else cfg['catch_p'])
         a = draw(small_args)
+        if cfg.get('unique_calls') and chance(draw, cfg['unique_calls']):
+            counter[0] += 1
+            a = [counter[0]]
         if kinds[j] == 'file':
             tgt = draw(opath)
+            if cfg.get('unique_calls') and unused:
+                tgt = unused.pop(draw(st.integers(0, len(unused) - 1)))
             if draw(st.integers(0, 39)) == 0:
                 tgt = cache_rel          # build_file on the cache file: must be refused
             return ['bf', tgt, names[j], a, draw(cmp_), catch]
@@ -114,12 +121,20 @@ def program(draw, cfg=DEFAULT_CFG, cache_rel='cache.gz'):
     def body(i, is_file, depth):
         stmts = []
         wrote = False
+        qw = cfg.get('query_w', 4)
+        cw = cfg.get('call_w', 3)
         for _ in range(draw(st.integers(0, cfg['max_body']))):
-            c = draw(st.integers(0, 9))
-            if c <= 3:
+            c = draw(st.integers(0, qw + cw + 2))
+            if c < qw:
                 stmts.append(draw(query))
-            elif c <= 6 and i + 1 < nfun:
-                stmts.append(call(draw(st.integers(i + 1, nfun - 1))))
+                continue
+            if c < qw + cw:
+                if i + 1 < nfun:
+                    stmts.append(call(draw(st.integers(i + 1, nfun - 1))))
+                continue
+            c = c - qw - cw + 7
+            if False:
+                pass
             elif c == 7 and depth < 2:
                 q = [draw(st.just('q')), draw(st.sampled_from(['exists', 'is_file', 'is_dir'])), draw(path), 'METADATA']
                 stmts.append(['if', q, body(i, False, depth + 1), body(i, False, depth + 1)])
@@ -128,6 +143,8 @@ def program(draw, cfg=DEFAULT_CFG, cache_rel='cache.gz'):
             elif c == 9 and is_file and not wrote and depth == 0:
                 stmts.append(['write'])
                 wrote = True
+        if depth == 0 and i + 1 < nfun and cfg.get('chain_p') and chance(draw, cfg['chain_p']):
+            stmts.insert(draw(st.integers(0, len(stmts))), call(i + 1))
         if is_file and depth == 0 and not wrote and not chance(draw, cfg['nowrite_p']):
             stmts.insert(draw(st.integers(0, len(stmts))), ['write'])
         if depth == 0 and chance(draw, cfg['nonjson_p']):
@@ -171,3 +188,58 @@ def ext_step(paths, weights=None):
         st.tuples(st.just('swap'), p).map(list),
         st.just(['rm_cache']),
     )
+
+
+@st.composite
+def tree_program(draw, cfg=DEFAULT_CFG, cache_rel='cache.gz'):
+    """Programs whose call graph is a forest: every function has exactly one call site, so no key is
+    requested twice and sub-trees are independent (C06, C13).  Depth of the chains: 1..max_funcs."""
+    univ = cfg['universe']
+    masked = set(cache_ancestors(cache_rel))
+    qpaths = [p for p in univ if p not in masked] + ['']
+    path = st.sampled_from(qpaths)
+    cmp_ = st.sampled_from(cfg['cmp'])
+    qkind = st.sampled_from(cfg['query_kinds'])
+    query = st.tuples(st.just('q'), qkind, path, cmp_).map(list)
+    nfun = draw(st.integers(2, cfg['max_funcs']))
+    names = ['f%d' % i for i in range(nfun)]
+    cand = draw(st.lists(st.sampled_from(univ), min_size=2, max_size=8, unique=True))
+    outs = prefix_free(cand, masked | {cache_rel})
+    kinds = []
+    targets = {}
+    for n in names:
+        k = draw(st.sampled_from(cfg['kinds'] or ['file', 'file', 'sub']))
+        if k == 'file' and not outs:
+            k = 'sub'
+        if k == 'file':
+            targets[n] = outs.pop(draw(st.integers(0, len(outs) - 1)))
+        kinds.append(k)
+    parents = {}
+    for j, n in enumerate(names):
+        if j == 0:
+            parents[n] = 'root'
+        else:
+            parents[n] = names[j - 1] if chance(draw, cfg.get('chain_p', 0.5)) else draw(st.sampled_from(['root'] + names[:j]))
+    children = {n: [c for c in names if parents[c] == n] for n in names + ['root']}
+
+    def call(n, top):
+        catch = chance(draw, cfg['root_catch_p'] if top else cfg['catch_p'])
+        a = draw(small_args)
+        if kinds[names.index(n)] == 'file':
+            return ['bf', targets[n], n, a, draw(cmp_), catch]
+        return ['sb', n, a, catch]
+
+    funcs = {}
+    for n, k in zip(names, kinds):
+        stmts = [draw(query) for _ in range(draw(st.integers(0, cfg.get('tree_queries', 2))))]
+        for c in children[n]:
+            stmts.insert(draw(st.integers(0, len(stmts))), call(c, False))
+        if k == 'file' and not chance(draw, cfg['nowrite_p']):
+            stmts.insert(draw(st.integers(0, len(stmts))), ['write'])
+        if chance(draw, 0.04 * cfg['raise_w']):
+            stmts.insert(draw(st.integers(0, len(stmts))), ['raise'])
+        funcs[n] = {'kind': k, 'body': stmts}
+    root = [draw(query) for _ in range(draw(st.integers(0, 2)))]
+    for c in children['root']:
+        root.insert(draw(st.integers(0, len(root))), call(c, True))
+    return {'root': root, 'funcs': funcs, 'universe': list(univ)}
